@@ -1,2 +1,190 @@
-//! Harnesses for property C02 (see /verif/properties.jsonl).
+//! Harnesses for property C02 (see /verif/properties.jsonl): every frequency handed to
+//! `NtpClock::set_frequency` lies within +-maximum_frequency_steer, every slew uses an extra
+//! frequency of at most slew_maximum_frequency_offset, whatever the kernel reported at startup.
+//!
+//! The bound is checked by the recording clock when `set_frequency` is called and again on the log.
+use crate::common::*;
 use crate::stubs;
+use ntp_proto::verif::algorithm::kalman as kh;
+use ntp_proto::verif::algorithm::InternalTimeSyncController;
+use ntp_proto::verif::time_types as tt;
+use ntp_proto::{AlgorithmConfig, KalmanClockController};
+
+/// no overflow to infinity in `desired - new + delta` / `1 + x` below this magnitude
+const BIG: f64 = 1e300;
+
+/// A kernel frequency of exactly -1 (-1e6 ppm: a clock that does not advance) makes
+/// `(1 + new) / (1 + old)` a 0/0 in the *message to the sources* (not in the applied frequency);
+/// Kani's NaN check flags it, so it is excluded (stated in the props file).
+#[cfg(kani)]
+fn any_kernel_freq() -> f64 {
+    let f = any_finite();
+    kani::assume(f != -1.0);
+    f
+}
+
+fn check_freq_log(c: &KalmanClockController<RecClock>, max: f64) {
+    unsafe {
+        assert!(FREQ_N == 1, "exactly one set_frequency per frequency change");
+        let x = FREQ_X[0];
+        assert!(x >= -max && x <= max, "-max <= applied frequency <= max");
+        assert!(!x.is_nan(), "applied frequency is a number");
+        assert!(kh::controller_freq_offset(c) == x, "the remembered frequency offset is the applied one");
+        assert!(kh::controller_freq_offset(c).is_finite(), "invariant: freq_offset stays finite");
+        assert!(STEP_N == 0, "a frequency change does not step");
+    }
+}
+
+fn plain_cfg() -> StepCfg {
+    StepCfg { in_startup: false, acc0: 0, start_fwd: None, start_bwd: None, single_fwd: None, single_bwd: None, acc_limit: None, warn_on_jump: false }
+}
+
+// `steer_frequency(change)`: arbitrary finite kernel frequency, change and positive maximum.
+harness! {
+    fn c02_steer_frequency() {
+        let f0 = any_kernel_freq();
+        let change = any_finite();
+        let max = any_pos_finite();
+        let desired = any_finite();
+        let algo = AlgorithmConfig { maximum_frequency_steer: max, ..AlgorithmConfig::default() };
+        let mut c = controller(&plain_cfg(), algo, f0, desired);
+        arm_freq_policy(max);
+        let upd = kh::steer_frequency(&mut c, change);
+        check_freq_log(&c, max);
+        assert!(kh::controller_desired_freq(&c) == desired, "steer_frequency leaves the slew frequency alone");
+        assert!(upd.source_message.is_some(), "sources are told about the change");
+        unsafe {
+            kani::cover!(FREQ_X[0] == max, "clamped at +max");
+            kani::cover!(FREQ_X[0] == -max, "clamped at -max");
+            kani::cover!(FREQ_X[0] > -max && FREQ_X[0] < max && FREQ_X[0] != f0, "unclamped change");
+            kani::cover!(f0 > max, "kernel frequency outside the maximum at startup");
+        }
+    }
+}
+
+// `change_desired_frequency(new, delta)` as called by the slew start and `time_update`.
+harness! {
+    fn c02_change_desired() {
+        let f0 = any_kernel_freq();
+        let max = any_pos_finite();
+        let desired = any_finite();
+        let new_freq = any_finite();
+        let delta = any_finite();
+        kani::assume(desired.abs() <= BIG && new_freq.abs() <= BIG && delta.abs() <= BIG);
+        let algo = AlgorithmConfig { maximum_frequency_steer: max, ..AlgorithmConfig::default() };
+        let mut c = controller(&plain_cfg(), algo, f0, desired);
+        arm_freq_policy(max);
+        let _ = kh::change_desired_frequency(&mut c, new_freq, delta);
+        check_freq_log(&c, max);
+        assert!(kh::controller_desired_freq(&c) == new_freq, "the slew frequency becomes the requested one");
+        unsafe {
+            kani::cover!(FREQ_X[0] == max, "clamped at +max");
+            kani::cover!(FREQ_X[0] > -max && FREQ_X[0] < max, "unclamped");
+        }
+    }
+}
+
+// `time_update()` (end of slew).
+harness! {
+    fn c02_time_update() {
+        let f0 = any_kernel_freq();
+        let max = any_pos_finite();
+        let desired = any_finite();
+        let algo = AlgorithmConfig { maximum_frequency_steer: max, ..AlgorithmConfig::default() };
+        let mut c = controller(&plain_cfg(), algo, f0, desired);
+        arm_freq_policy(max);
+        let _ = c.time_update();
+        check_freq_log(&c, max);
+        assert!(kh::controller_desired_freq(&c) == 0.0, "the slew has ended");
+        unsafe {
+            kani::cover!(FREQ_X[0] == -max, "clamped at -max");
+            kani::cover!(desired != 0.0 && FREQ_X[0] != f0, "frequency moved back");
+        }
+    }
+}
+
+/// ghost: the slew duration was not representable (the real daemon panics there)
+pub static mut DURATION_PANIC: bool = false;
+/// Replacement for `std::time::Duration::from_secs_f64`: same domain check as the real function
+/// (negative, NaN, infinite or >= 2^64 seconds panic = the daemon stops: path ends); the result
+/// keeps the whole seconds only (the value is not used by the property).
+pub fn duration_from_secs_f64_stub(secs: f64) -> std::time::Duration {
+    if !(secs >= 0.0 && secs < 18446744073709551616.0) {
+        unsafe {
+            DURATION_PANIC = true;
+        }
+        #[cfg(kani)]
+        {
+            kani::cover!(true, "slew duration not representable: the daemon panics before touching the clock");
+            unsafe {
+                assert!(crate::common::FREQ_N == 0 && crate::common::STEP_N == 0, "no clock call before the panic");
+            }
+            kani::assume(false);
+        }
+    }
+    std::time::Duration::from_secs(secs as u64)
+}
+
+pub struct SlewSetup {
+    pub sc: StepCfg,
+    pub ctl: KalmanClockController<RecClock>,
+    pub change: f64,
+    pub freq_delta: f64,
+    pub max: f64,
+    pub slew_max: f64,
+}
+
+/// Arbitrary pre-state and configuration for the slew branch of `steer_offset`.
+/// Assumptions (part of the claim): the correction is in the slew branch (|change| <= step
+/// threshold) and non-zero (a zero correction makes the slew duration 0/0; see props file);
+/// magnitudes below 1e300 so that sums of finite frequencies stay finite;
+/// invariant |desired_freq| <= slew_maximum_frequency_offset; kernel frequency != -1.
+/// A slew duration that `std::time::Duration` cannot represent makes the real
+/// `Duration::from_secs_f64` panic (the daemon stops before any clock call): modelled by
+/// `duration_from_secs_f64_stub`, which ends the path.
+pub fn slew_setup() -> SlewSetup {
+    let sc = any_step_cfg();
+    let f0 = any_finite();
+    let max = any_pos_finite();
+    let slew_max = any_pos_finite();
+    let slew_min_dur = any_pos_finite();
+    let step_threshold: f64 = kani::any();
+    let change = any_finite();
+    let freq_delta = any_finite();
+    let desired = any_finite();
+    kani::assume(!(change.abs() > step_threshold));
+    kani::assume(slew_max <= BIG && freq_delta.abs() <= BIG);
+    kani::assume(desired.abs() <= slew_max);
+    kani::assume(change != 0.0);
+    kani::assume(f0 != -1.0);
+    let algo = AlgorithmConfig {
+        maximum_frequency_steer: max,
+        slew_maximum_frequency_offset: slew_max,
+        slew_minimum_duration: slew_min_dur,
+        step_threshold,
+        ..AlgorithmConfig::default()
+    };
+    let ctl = controller(&sc, algo, f0, desired);
+    SlewSetup { sc, ctl, change, freq_delta, max, slew_max }
+}
+
+// Slew branch of `steer_offset`.
+harness! {
+    #[kani::stub(std::process::exit, crate::common::exit_unexpected)]
+    #[kani::stub(std::time::Duration::from_secs_f64, crate::c02::duration_from_secs_f64_stub)]
+    fn c02_slew() {
+        let s = slew_setup();
+        let mut c = s.ctl;
+        arm_freq_policy(s.max);
+        let upd = kh::steer_offset(&mut c, s.change, s.freq_delta);
+        check_freq_log(&c, s.max);
+        let extra = kh::controller_desired_freq(&c);
+        assert!(extra >= -s.slew_max && extra <= s.slew_max, "|extra slew frequency| <= slew_maximum_frequency_offset");
+        assert!(upd.next_update.is_some(), "the end of the slew is scheduled");
+        unsafe {
+            kani::cover!(extra == s.slew_max, "slew at the maximum rate (negative correction)");
+            kani::cover!(extra < 0.0 && extra > -s.slew_max, "slew below the maximum rate");
+            kani::cover!(FREQ_X[0] == s.max, "slew clamped by the absolute maximum");
+        }
+    }
+}
